@@ -2,7 +2,7 @@ use crate::serializer::{StoreRefResult, StoreStringResult};
 use crate::{RefId, StringId};
 use hashbrown::hash_map::Entry;
 use hashbrown::HashMap;
-use std::any::Any;
+use std::any::{Any, TypeId};
 
 #[derive(Default)]
 pub struct State {
@@ -10,7 +10,8 @@ pub struct State {
     ids_by_string: HashMap<String, StringId>,
     last_string_id: StringId,
     refs_by_id: HashMap<RefId, *const dyn Any>,
-    ids_by_ref: HashMap<*const dyn Any, RefId>,
+    // keyed by data address and type: the vtable part of a `*const dyn Any` is not guaranteed to be unique per type
+    ids_by_ref: HashMap<(*const (), TypeId), RefId>,
     last_ref_id: RefId,
 }
 
@@ -33,7 +34,8 @@ impl State {
     }
 
     pub fn store_ref(&mut self, value: &impl Any) -> StoreRefResult {
-        match self.ids_by_ref.entry(value) {
+        let key = (value as *const _ as *const (), Any::type_id(value));
+        match self.ids_by_ref.entry(key) {
             Entry::Occupied(entry) => StoreRefResult::RefAlreadyStored { id: *entry.get() },
             Entry::Vacant(entry) => {
                 self.last_ref_id.next();
